@@ -48,8 +48,9 @@ impl Prop for C19 {
     }
     // every registered native function x argument shapes (assignment-free by construction)
     // (the *-assign functions are the op-assignment operators under their function names: calling one is an assignment)
-    for (k, (id, src)) in stdlib_sweep().into_iter().enumerate() {
-      if tier == Tier::Quick && (k as u64 + seed) % 3 != 0 { continue; }
+    for (id, src) in stdlib_sweep().into_iter() {
+      // quick: the variable-argument forms only (a fixed half of the sweep, independent of the seed)
+      if tier == Tier::Quick && (id.ends_with("form=l") || id.ends_with("form=ll")) { continue; }
       let f = id.split(';').next().unwrap_or("").to_string();
       out.push(Case { id: format!("stdlib;{}", id), cell: format!("stratum=stdlib;{}", f), input: json!({"src": src, "mutates": f.contains("assign")}) });
     }
